@@ -18,6 +18,9 @@ def check(tier, seed):
     if not ok:
         ck.broken.append("harness build: " + msg[-500:])
         return ck.finish()
+    ok, msg = C.regen_tables()
+    if not ok:
+        ck.broken.append("table/constant dump: " + msg[-500:])
     res = C.coq_property(PID)
     ck.add_coq(res)
     if not res["ok"]:
